@@ -353,11 +353,12 @@ def reencode(schema: Schema, mi: MI, data: bytes, ops, rng, depth: int = 0, stat
                 if "toggle" in ops and els and rng.random() < 0.7:
                     out.extend(make_record(fi.number, wt, p) for wt, p in els)
                     hit("toggle")
-                elif "split" in ops and len(els) >= 2 and rng.random() < 0.8:
-                    k = rng.randrange(1, len(els))
+                elif "split" in ops and len(els) >= 1 and rng.random() < 0.8:
+                    # (an EMPTY packed chunk - tag + length 0 - is legal and adds nothing)
+                    k = rng.randrange(0, len(els) + 1)
                     for chunk in (els[:k], els[k:]):
                         out.append(make_record(fi.number, LEN, b"".join(payload_bytes(wt, p) for wt, p in chunk)))
-                    hit("split")
+                    hit("split" if 0 < k < len(els) else "split_with_empty_chunk")
                 elif "pad_val" in ops and els and els[0][0] == VARINT and rng.random() < 0.7:
                     body = b""
                     for _, p in els:
